@@ -165,6 +165,79 @@ theorem C14_empty_iff (core : ClipCore) (hline : ClipLineSpec core.line) (L : Li
             simp [onPaths, onPath, pairs, onSeg_left]
           exact hall a ((hpts a).1 hon)
 
+/-! ## every returned vertex lies on the line and in the closed polygon -/
+
+theorem onSeg_right (a b : P) : onSeg a b b = true := by
+  have : orient a b b = 0 := by simp only [orient]; ring
+  simp [onSeg, between, this, le_total]
+
+theorem onPath_of_mem (l : Path) (v : P) (hl : 2 ≤ l.length) (hv : v ∈ l) : onPath l v = true := by
+  induction l with
+  | nil => simp at hl
+  | cons a rest ih =>
+    cases rest with
+    | nil => simp at hl
+    | cons b t =>
+      simp only [onPath, pairs, List.any_cons, Bool.or_eq_true]
+      rcases List.mem_cons.1 hv with h | h
+      · subst h; exact Or.inl (onSeg_left _ _)
+      · cases t with
+        | nil =>
+          have : v = b := by simpa using h
+          subst this; exact Or.inl (onSeg_right _ _)
+        | cons c t' =>
+          exact Or.inr (ih (by simp) h)
+
+/-- **C14, clause 1.** Under the CLIPLINE contract (simple line, valid polygon, general position):
+every vertex of every returned piece lies on `L` and inside or on the boundary of `P`. -/
+theorem C14_vertices (core : ClipCore) (hline : ClipLineSpec core.line) (L : Lines) (arg : Operand)
+    (hs : simplePaths L.paths = true) (hv : validC (toContours arg) = true)
+    (hg : gpLine L.paths (toContours arg) = true) :
+    ∀ piece ∈ clip core L arg, ∀ v ∈ piece,
+      onPaths L.paths v = true ∧ insideClosedC (toContours arg) v = true := by
+  intro piece hp v hvp
+  rw [C14_glue] at hp
+  by_cases ht : trivialCase L.paths (toContours arg) = true
+  · simp [ht] at hp
+  · simp only [ht, Bool.false_eq_true, if_false] at hp
+    have hne : L.paths ≠ [] ∧ toContours arg ≠ [] ∧ overlaps (bbox L.paths) (bbox (toContours arg)) = true := by
+      simp only [trivialCase, Bool.or_eq_true, not_or, Bool.not_eq_true, Bool.not_eq_eq_eq_not, Bool.not_not,
+        Bool.not_false] at ht
+      refine ⟨?_, ?_, ?_⟩
+      · intro e; rw [e] at ht; simp at ht
+      · intro e; rw [e] at ht; simp at ht
+      · simpa using ht.2
+    obtain ⟨hlen, hpts⟩ := hline L.paths (toContours arg) hne.1 hne.2.1 hne.2.2 hs hv hg
+    apply (hpts v).1
+    simp only [onPaths, List.any_eq_true]
+    exact ⟨piece, hp, onPath_of_mem piece v (hlen piece hp) hvp⟩
+
+/-- **C14, headline.** Under the CLIPLINE contract (simple line, valid polygon, general position), in
+every case — trivial ones included — the union of the returned pieces is, as a point set, exactly
+the part of `L` that lies inside or on `P`. -/
+theorem C14_exact (core : ClipCore) (hline : ClipLineSpec core.line) (L : Lines) (arg : Operand)
+    (hs : simplePaths L.paths = true) (hv : validC (toContours arg) = true)
+    (hg : gpLine L.paths (toContours arg) = true) (p : P) :
+    onPaths (clip core L arg) p = true ↔
+      (onPaths L.paths p = true ∧ insideClosedC (toContours arg) p = true) := by
+  by_cases ht : trivialCase L.paths (toContours arg) = true
+  · have := C14_trivial core L arg ht
+    rw [this.1]
+    constructor
+    · intro h; simp [onPaths] at h
+    · intro h; exact absurd h (this.2 p)
+  · have hne : L.paths ≠ [] ∧ toContours arg ≠ [] ∧ overlaps (bbox L.paths) (bbox (toContours arg)) = true := by
+      simp only [trivialCase, Bool.or_eq_true, not_or, Bool.not_eq_true, Bool.not_eq_eq_eq_not, Bool.not_not,
+        Bool.not_false] at ht
+      refine ⟨?_, ?_, ?_⟩
+      · intro e; rw [e] at ht; simp at ht
+      · intro e; rw [e] at ht; simp at ht
+      · simpa using ht.2
+    obtain ⟨_, hpts⟩ := hline L.paths (toContours arg) hne.1 hne.2.1 hne.2.2 hs hv hg
+    rw [C14_glue]
+    simp only [ht, Bool.false_eq_true, if_false]
+    exact hpts p
+
 /-! ## the oracle is sound -/
 
 /-- **Oracle, inside.** Every interval the oracle reports for segment `ab` has its midpoint inside
